@@ -775,7 +775,7 @@ fn main() {
         run_case(&mut cx, &d, "misuse_width", true);
     }
     // 6. bounded-exhaustive shapes
-    exhaustive(3, &[0, 3, 65533, 65536], &[2, 3, 4], |d| {
+    exhaustive(3, &[0, 65533, 65536], &[2, 3, 4], |d| {
         run_case(&mut cx, &d, "exhaustive3", true);
     });
     if thorough {
